@@ -180,14 +180,14 @@ def gen_case(world, tier, prop):
       # argument-less factory (equal to every other one of its kind)
       return {'node': {'btype': 'ArgFactory', 'fn': 'z0', 'args': [], 'kwargs': {}},
               'id': new_id()}
-    fn = rng.choice(['n0', 'n1', 'N2', 'N3', 'n4', 'n5'])
+    fn = rng.choice(['n0', 'n1', 'N2', 'N3', 'n4', 'n5', 'n6'])
     nid = new_id()
     args, kwargs = fill(fn, nid, lambda: dyn_child(depth + 1, in_factory=True))
     return {'node': {'btype': 'ArgFactory', 'fn': fn, 'args': args,
                      'kwargs': kwargs}, 'id': nid}
 
   def partial(depth):
-    fn = rng.choice(['n0', 'n1', 'N2', 'N3', 'n4', 'n5'])
+    fn = rng.choice(['n0', 'n1', 'N2', 'N3', 'n4', 'n5', 'n6'])
     nid = new_id()
     args, kwargs = fill(fn, nid, lambda: dyn_child(depth + 1))
     return {'node': {'btype': 'Partial', 'fn': fn, 'args': args,
@@ -216,7 +216,7 @@ def gen_case(world, tier, prop):
   nb = 1
   rootfn = root['node']['fn']
   names = {'n0': ['x', 'y', 'z'], 'n1': ['y', 'extra', 'free'], 'N2': ['x', 'k'],
-           'N3': ['x', 'y'], 'n4': [], 'n5': ['x']}[rootfn]
+           'N3': ['x', 'y'], 'n4': [], 'n5': ['x'], 'n6': ['x', 'y', 'k']}[rootfn]
   for _ in range(rng.randint(2, 6)):
     if rng.random() < 0.15:
       ops.append({'op': 'build'})
